@@ -1,7 +1,8 @@
 (** Pinned statements of the C16 property theorems: compiled on every check, so a theorem
     cannot be weakened silently. *)
 From V Require Import Base.Util Gql.Ast Writer.Wop C16.Model C16.Spec
-  C16.ProofsTemplate C16.ProofsString C16.ProofsStrip C16.ProofsDoc C16.ProofsReindent C16.ProofsGlue C16.Proofs C16.Properties.
+  C16.ProofsTemplate C16.ProofsString C16.ProofsStrip C16.ProofsDoc C16.ProofsReindent C16.ProofsGlue
+  C16.SpecLex C16.LexGuard C16.ProofsLex1 C16.ProofsLex2 C16.ProofsLex3 C16.Proofs C16.Properties.
 Local Open Scope N_scope.
 
 Check (C16_template_roundtrip : forall ops,
@@ -21,6 +22,24 @@ Check (C16_server_module_value : forall model_plugin d,
 Check (C16_print_never_glues_tsdoc : forall d, ProofsGlue.G (print_tsdoc d) = true).
 Check (C16_print_never_glues_tsdoc_ext : forall d, ProofsGlue.G (print_tsdoc_ext d) = true).
 Check (C16_print_never_glues_opdoc : forall d, ProofsGlue.G (print_opdoc d) = true).
+Check (C16_chunks_lex : forall ops ts,
+  TK ops ts -> ProofsGlue.G ops = true -> lex (just_run ops) = Some ts).
+Check (C16_print_tsdoc_lex : forall d,
+  tsdoc_lx d = true -> lex (just_run (print_tsdoc d)) = Some (tokens_of_tsdoc d)).
+Check (C16_print_tsdoc_ext_lex : forall d,
+  tsdoc_lx d = true -> lex (just_run (print_tsdoc_ext d)) = Some (tokens_of_tsdoc d)).
+Check (C16_print_opdoc_lex : forall d,
+  opdoc_lx d = true -> lex (just_run (print_opdoc d)) = Some (tokens_of_opdoc d)).
+Check (C16_tsdoc_roundtrip_any_parser :
+  forall (R : tsdoc -> tsdoc -> Prop) (parse : list tok -> option tsdoc),
+  (forall a, exists a', parse (tokens_of_tsdoc a) = Some a' /\ R a' a) ->
+  forall d, tsdoc_lx d = true ->
+  exists d', match lex (just_run (print_tsdoc_ext d)) with Some ts => parse ts | None => None end = Some d' /\ R d' d).
+Check (C16_opdoc_roundtrip_any_parser :
+  forall (R : opdoc -> opdoc -> Prop) (parse : list tok -> option opdoc),
+  (forall a, exists a', parse (tokens_of_opdoc a) = Some a' /\ R a' a) ->
+  forall d, opdoc_lx d = true ->
+  exists d', match lex (just_run (print_opdoc d)) with Some ts => parse ts | None => None end = Some d' /\ R d' d).
 Check (C16_print_string_lex_partial : forall x rest,
   plain x = true -> starts_quote rest = false ->
   exists t, lex_string (print_string x ++ rest) = Some (t, rest) /\ value_nitrogql t = x).
@@ -74,6 +93,12 @@ Print Assumptions C16_server_module_value.
 Print Assumptions C16_print_never_glues_tsdoc.
 Print Assumptions C16_print_never_glues_tsdoc_ext.
 Print Assumptions C16_print_never_glues_opdoc.
+Print Assumptions C16_chunks_lex.
+Print Assumptions C16_print_tsdoc_lex.
+Print Assumptions C16_print_tsdoc_ext_lex.
+Print Assumptions C16_print_opdoc_lex.
+Print Assumptions C16_tsdoc_roundtrip_any_parser.
+Print Assumptions C16_opdoc_roundtrip_any_parser.
 Print Assumptions C16_print_string_lex_partial.
 Print Assumptions C16_print_string_lex_spec.
 Print Assumptions C16_strip_only_nitrogql.
